@@ -413,6 +413,8 @@ pub struct WorkerHandle {
     pub connected_at_s: u64,
     /// the worker processed `Stop` and left its message loop
     pub stopped: bool,
+    /// nothing is delivered on this worker's link any more (see `Action::Partition`)
+    pub partitioned: bool,
     arm_fail: Rc<Cell<bool>>,
     arm_slow_stop: Rc<Cell<u32>>,
     inert: Rc<Cell<bool>>,
@@ -822,6 +824,7 @@ impl Sim {
                 retract_check,
                 connected_at_s: at_s,
                 stopped: false,
+                partitioned: false,
                 arm_fail,
                 arm_slow_stop,
                 inert,
@@ -874,7 +877,7 @@ impl Sim {
         let Some(w) = self.workers.get_mut(&wid) else {
             return;
         };
-        if w.stopped {
+        if w.stopped || w.partitioned {
             return;
         }
         let Some(data) = w.to_worker.pop_front() else {
@@ -913,6 +916,9 @@ impl Sim {
         let Some(w) = self.workers.get_mut(&wid) else {
             return;
         };
+        if w.partitioned {
+            return;
+        }
         let Some(data) = w.to_server.pop_front() else {
             return;
         };
@@ -986,6 +992,8 @@ impl Sim {
         let expiring: Vec<Wid> = self
             .workers
             .values()
+            // a partitioned worker ends as well, but the server cannot know: it stays registered
+            .filter(|w| !w.partitioned)
             .filter(|w| {
                 w.spec
                     .time_limit_s
@@ -1002,6 +1010,14 @@ impl Sim {
             w.sim.shift_start_time(Duration::from_secs(secs));
         }
         tokio::time::advance(Duration::from_secs(secs)).await;
+    }
+
+    pub fn partition(&mut self, wid: Wid) {
+        if let Some(w) = self.workers.get_mut(&wid) {
+            if !w.stopped {
+                w.partitioned = true;
+            }
+        }
     }
 
     pub fn arm_slow_stop(&mut self, wid: Wid) {
